@@ -93,6 +93,8 @@ func init() {
 const allocA = "(*internal/allocator.Allocator)."
 
 func runC02(p *chk.Prog, r *chk.Report) {
+	// every address reaches the books through Assign, which asks whether the pool admits the Service (OWN-ALLOC, shared with C01)
+	c01OwnAlloc(p, r)
 	// a pool update re-validates every holder: SetPools always asks for the full pass (SETPOOLS-REPROCESS, shared with C07)
 	c07Release(p, r)
 	// a held address is re-validated against the current pools and Service on every sync (READOPT-EXIT, shared with C03)
@@ -816,10 +818,28 @@ func c02FamilySelect(p *chk.Prog, r *chk.Report) {
 					if g.EdgeImpliesAny(req) && g.Dominated(at, req) {
 						x.Check("select:return["+tag+"]:require-dual-is-pair", at.Pos(), len(lit.Elts) == 2, "", "RequireDualStack can succeed with a single address")
 					}
+					// ... also when its arm is shared with another policy: a single address is out of reach under RequireDualStack
+					if len(lit.Elts) == 1 {
+						x.Check("select:return["+tag+"]:single-address-not-under-require", at.Pos(), g.Dominated(at, chk.GNot(req)), "", "a single address can be returned to a RequireDualStack Service (the policy's arm is shared with PreferDualStack's fallbacks): it must get both families from one pool or stay pending")
+					}
 				}
 			}
 		}
 		x.Check("select:returns", f.Pos(), n >= 5, "", "fewer success returns than on the confirmed tree")
+		// PreferDualStack is satisfied by whichever family the pool still has: under that policy the "no available IPs"
+		// answer is given only when neither family has an address (a dropped IPv6-only arm starves a Service next to
+		// free IPv6 addresses)
+		prefer := g.GPat(true, "POL == R", chk.H("POL", isParamIdx(f, 1)), chk.H("R", constStr(f, "PreferDualStack")))
+		if g.EdgeImpliesAny(prefer) {
+			none := chk.GAnd(g.GExprNil(true, fromFam("IPv4")), g.GExprNil(true, fromFam("IPv6")))
+			for _, rt := range returnsOf(g) {
+				res := retResults(rt)
+				if len(res) != 2 || f.IsNilLit(res[1]) {
+					continue
+				}
+				x.Check("select:error:prefer-fails-only-without-any-address", rt.Pos(), g.Dominated(rt, chk.GOr(chk.GNot(prefer), none)), "", "under PreferDualStack the selection can fail although the pool has an address of one family: the Service stays pending next to free addresses")
+			}
+		}
 	}
 	// the slot form: a pointer variable that is assigned &RECV.IPV4 / &RECV.IPV6 (or nil) and read / written through
 	// afterwards - every such assignment must sit under the test for the field's own family
